@@ -436,23 +436,29 @@ Lemma sends_of_logs logs : sends_of (map Log logs) = [].
 Proof. induction logs as [|l logs IH]; [reflexivity|]. cbn [map]. rewrite sends_of_cons. exact IH. Qed.
 Lemma sends_of_app a b : sends_of (a ++ b) = sends_of a ++ sends_of b.
 Proof. unfold sends_of. apply flat_map_app. Qed.
-Lemma entry_sends_own srv e : e_pipes e = live -> not_raw srv (e_req e) ->
+Lemma sends_of_filter acts : sends_of (filter is_send acts) = sends_of acts.
+Proof.
+  induction acts as [|a acts IH]; [reflexivity|]. destruct a as [m l|l]; cbn [filter is_send].
+  - rewrite !sends_of_cons, IH. reflexivity.
+  - rewrite sends_of_cons, IH. reflexivity.
+Qed.
+Lemma entry_sends_own srv e : e_pipes e = live -> finalising srv (e_req e) ->
   entry_sends srv e = match final_message srv (e_req e) with Some m => [(m, true)] | None => [] end.
 Proof.
-  intros He Hn. unfold entry_sends. rewrite He. destruct (coroutine_final_once srv (e_req e) Hn) as (m & logs & n & -> & ->).
-  rewrite sends_of_app, sends_of_logs. reflexivity.
+  intros He Hn. unfold entry_sends. rewrite He. destruct (coroutine_final_once srv (e_req e) Hn) as (m & acts & n & -> & -> & Hf).
+  rewrite <- sends_of_filter, Hf. reflexivity.
 Qed.
 (* when a handler gets to finish, exactly the final message of its own request is handed to the message layer — whatever
    else is in flight, whatever the clock, the pending ACKs and the backlog are *)
 Lemma done_sends_own srv s id e : Inv s -> find_by_id id (s_incoming s) = Some e -> e_finished e = false ->
-  not_raw srv (e_req e) ->
+  finalising srv (e_req e) ->
   step_sends srv s (Done id) = match final_message srv (e_req e) with Some m => [(id, m, true)] | None => [] end.
 Proof.
   intros [_ HF] Ef Efin Hn. cbn [step_sends]. rewrite Ef, Efin.
   destruct (find_by_id_some _ _ _ Ef) as (Hin & _). rewrite Forall_forall in HF.
   rewrite entry_sends_own by (auto). destruct (final_message srv (e_req e)); reflexivity.
 Qed.
-Lemma req_sends_own srv s r : (r_slow r && reaches_handler srv r) = false -> not_raw srv r ->
+Lemma req_sends_own srv s r : (r_slow r && reaches_handler srv r) = false -> finalising srv r ->
   step_sends srv s (Req r) = match final_message srv r with Some m => [(r_id r, m, true)] | None => [] end.
 Proof.
   intros Hs Hn. cbn [step_sends]. rewrite Hs. rewrite entry_sends_own by (auto; reflexivity). cbn [e_req].
@@ -529,7 +535,7 @@ Lemma in_flight_exactly_one srv : forall mid s e m post,
   let id := eid e in
   Inv s -> fresh s (mid ++ Done id :: post) ->
   find_by_id id (s_incoming s) = Some e -> e_finished e = false ->
-  not_raw srv (e_req e) -> final_message srv (e_req e) = Some m ->
+  finalising srv (e_req e) -> final_message srv (e_req e) = Some m ->
   Forall (fun ev => match ev with
                     | Req r => key_eqb (key_of r) (key_of (e_req e)) = false
                     | Done j => j <> id
@@ -557,7 +563,7 @@ Qed.
 (* ... and the same from the arrival of the request on *)
 Lemma exactly_one_final srv s r mid m post :
   Inv s -> fresh s (Req r :: mid ++ Done (r_id r) :: post) ->
-  not_raw srv r -> final_message srv r = Some m ->
+  finalising srv r -> final_message srv r = Some m ->
   Forall (fun ev => match ev with
                     | Req r' => key_eqb (key_of r') (key_of r) = false
                     | Done j => j <> r_id r
@@ -632,3 +638,14 @@ Lemma tm_fill_spec r m :
   m_code (tm_fill r m) = m_code m /\ m_payload (tm_fill r m) = m_payload m /\ m_cf (tm_fill r m) = m_cf m /\
   m_nr (tm_fill r m) = match m_nr m with Some n => Some n | None => r_nr r end.
 Proof. repeat split. Qed.
+
+(* an observation being established hands its first response to the message layer as a non-final one (no final response:
+   the request stays registered, notifications follow — C08) *)
+Lemma entry_sends_established s e methods mode : e_pipes e = live ->
+  find_resource s (r_path (e_req e)) = Some (Observable methods mode) -> observing (e_req e) = true ->
+  establishes methods mode (e_req e) = true ->
+  exists m, render methods (e_req e) = Responded m /\ entry_sends (Some s) e = [(set_obs m (Some 0), false)].
+Proof.
+  intros He Hf Ho Hs. destruct (observable_established s (e_req e) methods mode Hf Ho Hs) as (m & Hr & _ & _ & Hrun).
+  exists m. split; [exact Hr|]. unfold entry_sends. rewrite He, Hrun. reflexivity.
+Qed.
